@@ -21,8 +21,8 @@ CLAIM = dict(
     "of every degree < k are reproduced, a degree-k polynomial is NOT (negative control), a reference two-body LEO "
     "arc is met within a rigorous remainder + abscissa-quantisation bound and within centimetres, dates outside "
     "are refused with ValueError and frame/form tags are kept. Explicit-state part: every history up to depth 3 (quick) / 4 (thorough) "
-    "over 15 operations on ONE Ephem object (interpolate at the first / a middle node, between nodes, in the last interval, propagate, "
-    "in-place form / frame change and coordinate write on a RETURNED point, method = linear / lagrange, order = 4 / 7, ephem.form / "
+    "over 17 operations on ONE Ephem object (interpolate at the first / a middle node, between nodes, in the last interval, propagate, "
+    "the same instants expressed in TT / GPS, in-place form / frame change and coordinate write on a RETURNED point, method = linear / lagrange, order = 4 / 7, ephem.form / "
     "ephem.frame setters, iteration over a sub-range) is replayed on a fresh object and compared with a model of the ephemeris' current "
     "settings; a returned point must never be a stored point and the table must never change through a returned point.",
     note="Trusts exact rational arithmetic (fractions), the reference two-body model (mc/ref/twobody.py, self-tested) "
@@ -32,7 +32,7 @@ CLAIM = dict(
     "one-hot window monitoring; rigorous error bounds",
 )
 RULE = (
-    "part E: state = operation history on one fresh Ephem object (rebuilt by replay), all histories over the 15-operation alphabet up to "
+    "part E: state = operation history on one fresh Ephem object (rebuilt by replay), all histories over the 17-operation alphabet up to "
     "the depth bound, pruned only where a mutation has no returned point to act on or where the prefix already violated; distinct by "
     "history, non-trivial when longer than one operation. Parts A-D: case = (part, order k, table length n, sampling, method, query); queries: every node, every interval midpoint, "
     "node +- 2^-10 s (Interp) / +- 1 ms (Ephem) for every node, first and last node, outside by 1 ms / 2 us / 1 ulp. "
@@ -40,12 +40,15 @@ RULE = (
     "every case with a query strictly between two nodes is non-trivial; cases are distinct by construction."
 )
 BOUNDS = {
-    "quick": "histories on one Ephem: depth <= 3 over 15 operations; orders 2..12 x n in {k,k+1,k+2,2k+1,30} x {uniform 60 s, cyclic 60/45/75/50 s} x {lagrange, linear}; "
+    "quick": "histories on one Ephem: depth <= 3 over 17 operations; orders 2..12 x n in {k,k+1,k+2,2k+1,30} x {uniform 60 s, cyclic 60/45/75/50 s} x {lagrange, linear}; "
     "Kepler arcs: circular + e=0.0012 LEO at 60 s and 10 s (uniform and non-uniform); 3 frame/form pairs",
     "thorough": "histories on one Ephem: depth <= 4; same product (it is already the full product of DESIGN §4 C09) plus table lengths 3k and 64, a third "
     "sampling pattern (cyclic 60/50/70/55/65 s) and a second eccentric arc (e=0.01)",
 }
 ASSUMPTIONS = [
+    "query-label dimension: every Ephem query of parts B, D and E is repeated (B, D) or available as an operation (E) with the same instant "
+    "expressed in TT / TAI / GPS (built with Date.change_scale under the zero-EOP configuration); the result must be that of the UTC-labelled "
+    "query, bit-identical when both dates are the same double MJD; dates just outside are refused in every scale",
     "reference = exact rational Lagrange / linear interpolation on the expected window; rounding tolerance "
     "6k*u*sum|l_j y_j| (u=2^-53) derived from the operation count of the product form",
     "Ephem abscissae are MJD doubles: node/query instants carry <= 2^-38 d (0.314 us) of quantisation, which enters "
@@ -304,13 +307,49 @@ def traj_coefs(k):
     return out
 
 
-def _date(sec):
-    """Date at START + sec (Fraction of seconds, exact microseconds)."""
+def _date(sec, scale=None):
+    """Date at START + sec (Fraction of seconds, exact microseconds); optionally the same instant labelled in another time scale
+    (built with the documented change_scale(); zero-EOP configuration: fixed offsets)."""
     from beyond.dates import Date, timedelta
 
     us = sec * 10 ** 6
     assert us.denominator == 1
-    return Date(*START) + timedelta(microseconds=int(us))
+    d = Date(*START) + timedelta(microseconds=int(us))
+    return d if scale in (None, "UTC") else d.change_scale(scale)
+
+
+SCALES = ("TT", "TAI", "GPS")
+
+
+def check_label(eph, x, d, res, qi, sig, t, case, slope=None):
+    """The same instant supplied as a TT / TAI / GPS date must give the result of the UTC-labelled query: bit-identical when
+    the two dates are the same double MJD, else (change_scale may move the internal MJD by one ulp, <= 0.63 us) within
+    slope * |dt|; the result's date is compared as an instant.  Returns the relabelled result (or None)."""
+    import numpy as np
+
+    sc = SCALES[qi % 3]
+    d2 = _date(x, sc)
+    try:
+        r2 = eph.interpolate(d2)
+    except Exception as e:
+        t.fail(f"{sig}/raises", "a date inside the table is accepted whatever the time scale it is expressed in", case, "StateVector",
+               repr(e), f"query {d2} ({sc}) = {d}")
+        return None
+    t.trans()
+    a, b = np.array(res, dtype=float), np.array(r2, dtype=float)
+    dt = abs(d2._mjd - d._mjd) * 86400.0
+    if dt > 1e-6:
+        raise AssertionError(f"change_scale moved the instant by {dt} s")  # C03's subject, not this check's
+    if not (abs(r2.date._mjd - d._mjd) * 86400.0 <= 1e-6):
+        t.fail(f"{sig}/date", "an interpolated point carries the instant that was asked", case, str(d), str(r2.date), f"query in {sc}")
+    ok = np.array_equal(a, b) if dt == 0.0 else (slope is not None and bool(np.all(np.abs(a - b) <= slope * dt * 4 + 1e-9)))
+    if dt != 0.0 and slope is None:
+        ok = True
+        t.exclude("relabelled date is another double MJD (1 ulp): bit-equality not applicable")
+    if not ok:
+        t.fail(f"{sig}/value", "the result does not depend on the time scale in which the query instant is expressed", case, a.tolist(), b.tolist(),
+               f"query {d2} ({sc}) vs {d} (UTC): max difference {np.max(np.abs(a - b)):.3e}")
+    return r2
 
 
 def check_B(k, n, sampling, method, t, only=None):
@@ -363,6 +402,8 @@ def check_B(k, n, sampling, method, t, only=None):
             continue
         t.ev(("B", k, n, sampling, method, kind, str(x)) if kind != "node" else None)
         r = np.array(res, dtype=float)
+        qi = (x.numerator + x.denominator + k + n) % 3  # deterministic choice of the label (all three occur over the query set)
+        check_label(eph, x, d, res, qi, "ephem/query-scale", t, case, slope=float(max(abs(v) for v in exact_d(x))) * 60.0)
         # (7) tags
         tags = (res.frame.name, res.form.name, res.date == d, type(res).__name__)
         if tags[:3] != ("EME2000", "cartesian", True):
@@ -428,10 +469,10 @@ def check_B(k, n, sampling, method, t, only=None):
             case = dict(base, qkind="outside", q=["outside"])
             t.states_add(1)
             t.ev(("B-out", k, n, sampling, method, name))
-            for fn in ("interpolate", "propagate"):
+            for fn in ("interpolate", "propagate", "TT", "TAI", "GPS"):
                 t.trans()
                 try:
-                    r = getattr(eph, fn)(_date(x))
+                    r = getattr(eph, fn)(_date(x)) if fn in ("interpolate", "propagate") else eph.interpolate(_date(x, fn))
                 except ValueError:
                     t.outcome("B-outside-ValueError")
                     continue
@@ -586,6 +627,7 @@ def check_D(k, n, method, t, only=None):
             except Exception as e:
                 t.fail("ephem/tags/raises-inside", "every date in [first, last] yields a point", case, "StateVector", repr(e), str(x))
                 continue
+            check_label(eph, x, _date(x), res, (x.numerator + k + n) % 3, "ephem/query-scale", t, case)
             got = (res.frame.name, res.form.name)
             t.outcome(("D-tags",) + got)
             if got != (frame, form) or not (res.date == _date(x)):
@@ -605,7 +647,7 @@ def check_D(k, n, method, t, only=None):
 # rational Lagrange / linear interpolation) is compared with the object, and the two structural invariants are checked:
 # a returned point is never a stored point, and the stored table never changes through a returned point.
 
-E_OPS = ["in0", "inM", "im", "ie", "pr", "mf", "mr", "mw", "sl", "sg", "o4", "o7", "ef", "er", "it"]
+E_OPS = ["in0", "inM", "inT", "im", "imG", "ie", "pr", "mf", "mr", "mw", "sl", "sg", "o4", "o7", "ef", "er", "it"]
 E_N = 12
 E_QUERY = {"im": Fr(655, 2), "ie": Fr(1207, 2), "pr": Fr(401)}  # seconds: mid-table, last interval, near a node
 E_MIDNODE = 5
@@ -672,13 +714,14 @@ def _e_apply(op, eph, M, last, checks, t, case):
     from beyond.dates import timedelta
 
     res = []
-    if op in ("in0", "inM"):
+    if op in ("in0", "inM", "inT"):
         j = 0 if op == "in0" else E_MIDNODE
-        r = eph.interpolate(_date(M.ts[j]))
-        res.append(("node", M.dates[j], j, r))
+        q = _date(M.ts[j], "TT" if op == "inT" else None)  # inT: the node instant expressed in TT
+        r = eph.interpolate(q)
+        res.append(("node" if q._mjd == M.dates[j]._mjd else "mid", q, j, r))
         last, M.used = r, True
-    elif op in ("im", "ie", "pr"):
-        d = _date(E_QUERY[op])
+    elif op in ("im", "ie", "pr", "imG"):
+        d = _date(E_QUERY["im"], "GPS") if op == "imG" else _date(E_QUERY[op])
         r = eph.propagate(d) if op == "pr" else eph.interpolate(d)
         res.append(("mid", d, None, r))
         last, M.used = r, True
@@ -736,14 +779,14 @@ def e_valid(hist):
     for op in hist:
         if op in ("mf", "mr", "mw") and not have:
             return False
-        if op in ("in0", "inM", "im", "ie", "pr", "it"):
+        if op in ("in0", "inM", "inT", "im", "imG", "ie", "pr", "it"):
             have = True
     return True
 
 
 def _e_class(hist):
     """Class of the most recent state-changing operation before the last one (for the signature)."""
-    for op in reversed(hist[:-1] if hist[-1] in ("in0", "inM", "im", "ie", "pr", "it") else hist):
+    for op in reversed(hist[:-1] if hist[-1] in ("in0", "inM", "inT", "im", "imG", "ie", "pr", "it") else hist):
         if op in ("mf", "mr", "mw"):
             return "after-returned-point-mutation"
         if op in ("sl", "sg"):
